@@ -8,6 +8,7 @@ Tie (M): exact correspondence, model evaluated by vm_compute inside Coq:
 Direct oracles on the implementation (independent of the model): keys complete / values >= 0 / sum 1 with strongly noisy
 and deterministic non-unitary gate sets on all five circuit classes; classical circuits (key order); marginal
 consistency between full and partial measurement; listed malformed arguments => ValueError before any shot."""
+import math
 import sys, os, json, itertools, math
 import numpy as np
 from fractions import Fraction
@@ -103,8 +104,8 @@ def dist_oracle(res, m):
     vals = [float(v) for v in d.values()]
     if any(not (v >= 0) for v in vals):
         return "negative or nan value %s" % (vals,)
-    if not abs(sum(vals) - 1) <= 1e-9:
-        return "values sum to %r" % sum(vals)
+    if not abs(math.fsum(vals) - 1) <= 4e-15 * max(8, len(vals)):      # "within rounding": a few ulps per term, not 1e-9
+        return "values sum to %r (|sum - 1| = %.3e, rounding of the normalisation is ~1e-16 per term)" % (math.fsum(vals), abs(math.fsum(vals) - 1))
     return None
 
 
@@ -615,6 +616,9 @@ def gen_oracle_specs(ck):
         for _ in range(4 if q else 25):
             n = rng.randint(1, 3)
             specs.append(oracle_spec(rng, "noisy", cls, "scaled2", "mid", n, rng.randint(0, 6), rng.randint(1, 2)))
+        for wk in (("weak1e-8", "weak1e-6", "almost") if q else ("weak1e-8", "weak1e-6", "weak1e-10", "weak1e-12", "weak1e-4", "almost", "weak1e-7")):
+            n = rng.randint(1, 3)            # barely noisy gate sets: the total before normalisation is close to, but not, one
+            specs.append(oracle_spec(rng, "noisy", cls, wk, "strong", n, rng.randint(2, 8), rng.randint(1, 3)))
         for _ in range(0 if q else 3):       # Gaussian pulse: slow (numerical integrals)
             specs.append(oracle_spec(rng, "noisy", cls, "gauss", "strong", rng.randint(1, 3), rng.randint(0, 4), 1))
         for _ in range(10 if q else 60):     # deterministic, strongly non-unitary gate set
